@@ -3,15 +3,17 @@ CONSTANTS XKinds = {"pdep"}
           YKinds = {"lit"}
           Aliases = {"none","neg"}
           Delays = {"none","lit","par","par_lit","par_par2","sum"}
-          Opts = {"base","aliases","rcv","ev"}
+          Opts = {"base","aliases","rcv","ev","eva","evb"}
           Typed = {TRUE}
           Strs = {TRUE}
           Outs = {TRUE,FALSE}
           SwapDepClasses = FALSE
           ForgetOutputs = FALSE
           DurDepsOffByOne = FALSE
+          TruthyOptions = FALSE
 INIT Init
 NEXT Next
 INVARIANT RoundTrip
 INVARIANT NoMXPickled
+INVARIANT SwitchedIsFresh
 CHECK_DEADLOCK FALSE
